@@ -322,6 +322,16 @@ def plan(tier, probe_bs, reduced={}):
             it.append(case(rate, ch, mode, n, 'u511', 'imp%d' % max(0, n - bs1 // 2 - bs0), 'nf3', 'boundary'))
             if tier != 'quick':
                 it.append(case(rate, ch, mode, n, 'u7', 'sine', 'n', 'boundary'))
+    # ---- big pieces: "in pieces of any sizes" includes pieces far beyond one block and beyond 64 Ki samples (round-8 seed C04r8-2: the encoder never started when the
+    # FIRST piece exceeded ~64 Ki samples). N around 2^16 and 2^17 x {one piece, 2^16(+1) pieces, 2^15, 1024, first piece big then the rest (s<a>), small then big}
+    bigit = []
+    for cfg in (A8, C44S):
+        for n in (65535, 65536, 65537, 70001, 131073):
+            for chunk in ('u%d' % n, 'u65536', 'u65537', 'u32768', 'u1024', 's65536', 's65537', 's%d' % (n - 1), 's1', 's1024'):
+                if chunk.startswith('s') and not (0 < int(chunk[1:]) < n):
+                    continue
+                bigit.append(case(*cfg, n, chunk, 'noise', 'n', 'bigpieces', 'big:' + ('whole' if chunk == 'u%d' % n else chunk)))
+    G.insert(0, ('bigpieces', bigit))
     # the two small bitrate-management groups go first so that a deadline never cuts them
     G.insert(0, ('abr_easy', abr_easy_cases(tier)))
     G.insert(0, ('hardmax', hardmax_cases(tier)))
